@@ -81,6 +81,9 @@ def lean_ty(t) -> str:
 	if k == 'str': return 'List Char'
 	if k in ('db', 'obj'): return 'Unit'
 	if k == 'arr': return 'Py.Arr'
+	if k == 'sigs': return 'Py.Sigs'
+	if k == 'nd': return 'Py.ND'
+	if k == 'index': return 'Py.Index'
 	if k == 'dtype': return 'Py.DType'
 	if k == 'score': return 'UInt32'
 	if k == 'char': return 'Char'
@@ -103,6 +106,9 @@ def default(t) -> str:
 	if k == 'kspec': return '(default : Py.KSpec)'
 	if k in ('db', 'obj'): return '()'
 	if k == 'arr': return '(default : Py.Arr)'
+	if k == 'sigs': return '(default : Py.Sigs)'
+	if k == 'nd': return '(default : Py.ND)'
+	if k == 'index': return '(default : Py.Index)'
 	if k == 'dtype': return '(default : Py.DType)'
 	if k == 'score': return '(0 : UInt32)'
 	if k == 'char': return "' '"
@@ -229,6 +235,17 @@ FUNCS = [
 	dict(name='jaccarddist', file='metric.py', qual='jaccarddist', module='PyMetric', env=[], dtype_as='record',
 	     params=[('coords1', ('arr',)), ('coords2', ('arr',))], ret=('score',)),
 	dict(name='num_pairs', file='metric.py', qual='num_pairs', module='PyMetric', env=[], params=[('n', INT)], ret=INT),
+	dict(name='jaccarddist_array', file='metric.py', qual='jaccarddist_array', module='PyBulk', env=[], dtype_as='record', arrays=True, strings='msg',
+	     params=[('query', ('arr',)), ('refs', ('sigs',)), ('out', OPT(('nd',)))], ret=('nd',), fills_out=True),
+	dict(name='jaccarddist_matrix', file='metric.py', qual='jaccarddist_matrix', module='PyBulk', env=[], dtype_as='record', arrays=True, strings='msg',
+	     params=[('queries', LIST(('arr',))), ('refs', ('sigs',)), ('ref_indices', OPT(LIST(INT))), ('out', OPT(('nd',))), ('chunksize', OPT(INT)), ('progress', ('obj',))],
+	     ret=('nd',), fills_out=True,
+	     calls={'get_progress': ('()', ('obj',), [])}, methods={('obj', 'increment'): ('()', ('obj',), [], None)}),
+	dict(name='jaccarddist_pairwise', file='metric.py', qual='jaccarddist_pairwise', module='PyBulk', env=[], dtype_as='record', arrays=True, strings='msg',
+	     params=[('sigs', ('sigs',)), ('indices', OPT(LIST(INT))), ('flat', BOOL), ('out', OPT(('nd',))), ('progress', ('obj',))], ret=('nd',),
+	     # next_out is assigned and read under the same condition `flat` (a correlation the definite-assignment check does not see)
+	     assume_bound=['next_out'],
+	     calls={'get_progress': ('()', ('obj',), [])}, methods={('obj', 'increment'): ('()', ('obj',), [], None)}),
 	dict(name='check_index', file='util/indexing.py', qual='AdvancedIndexingMixin._check_index', module='PyCheckIndex',
 	     env=[], params=[('self_len', INT), ('i', INT)], ret=INT, self_len='self_len'),
 ]
@@ -266,6 +283,7 @@ class Fn:
 		self.nohoist = 0                    # > 0 inside operands that are evaluated conditionally (and / or / conditional expression / loop test)
 		self.nv = 0
 		self.list_hint = None               # declared type of the variable a list expression is being assigned to
+		self.viewdef = {}                   # local name -> the view expression it was assigned (x = a[…]; f(out=x) writes into a)
 		self.gen = decl.get('generator')
 		for n, t in (decl.get('locals') or {}).items():
 			self.vars[n] = t
@@ -314,10 +332,20 @@ class Fn:
 			return E(f'(some {e.lean})', ty, e.raises)
 		if e.ty[0] == 'opt' and e.ty[1] == ty:
 			return self.unwrap(e, 'TypeError')
+		if ty == ('index',) and e.ty == TUP(INT, INT) and getattr(e, 'parts', None):
+			return E(f'(Py.Index.slice {e.parts[0].lean} {e.parts[1].lean})', ty, e.raises)
+		if ty == ('index',) and e.ty == TUP(INT, INT):
+			return E(f'(Py.Index.slice ({e.lean}).1 ({e.lean}).2)', ty, e.raises)
+		if ty == ('index',) and e.ty == LIST(INT):
+			return E(f'(Py.Index.ints {e.lean})', ty, e.raises)
 		if e.ty == NUM and ty == NUMINF:
 			return E(f'(some {e.lean})', ty, e.raises)
 		if e.ty == NUMINF and ty == NUM:      # float('inf') where a distance is expected: outside the model, reported as an exception
 			return E(f'(({e.lean}).getD 0)', ty, e.raises + [(f'({e.lean}).isNone', 'Other')])
+		if e.ty[0] == 'tuple' and ty == LIST(INT) and all(t == INT for t in e.ty[1]) and getattr(e, 'parts', None) is None:
+			n = len(e.ty[1])
+			projs = [f'({e.lean})' + ''.join(['.2'] * i) + ('.1' if i < n - 1 else '') for i in range(n)] if n > 1 else [e.lean]
+			return E('[' + ', '.join(projs) + ']', ty, e.raises)
 		if e.ty[0] == 'tuple' and ty[0] == 'list' and getattr(e, 'parts', None) is not None and all(p.ty == ty[1] for p in e.parts):
 			return E('[' + ', '.join(p.lean for p in e.parts) + ']', ty, e.raises)     # a tuple used as a homogeneous sequence
 		if e.ty[0] == 'set' and ty[0] == 'set' and e.ty[1] == NONE:
@@ -397,6 +425,8 @@ class Fn:
 			f = dict(RECORDS[t[1]]['fields'])
 			if a not in f: raise Untranslatable(f'attribute .{a} of {t[1]}')
 			return E(f'{o.lean}.{mangle(a)}', f[a], o.raises)
+		if t == ('sigs',) and a == 'values':
+			return E(f'(Py.Sigs.values {o.lean})', ('arr',), o.raises)
 		if t == ('arr',) and a == 'dtype':
 			return E(f'{o.lean}.dtype', ('dtype',), o.raises)
 		if t == ('dtype',) and a == 'itemsize':
@@ -506,6 +536,16 @@ class Fn:
 			else:
 				raise Untranslatable(f'`in` between {a.ty} and {b.ty}')
 			return E(f'({lean})' if isinstance(op, ast.In) else f'(!({lean}))', BOOL, a.raises + b.raises)
+		if isinstance(op, ast.NotEq) and isinstance(l, ast.Attribute) and l.attr in ('shape', 'dtype'):
+			o = self.value(l.value)
+			if o.ty == ('nd',) and l.attr == 'dtype' and ast.unparse(r) == 'SCORE_DTYPE':
+				return E(f'(!({o.lean}).okDtype)', BOOL, o.raises)
+			if o.ty == ('nd',) and l.attr == 'shape':
+				sh = self.value(r)
+				if sh.ty[0] == 'tuple' and all(t == INT for t in sh.ty[1]) and getattr(sh, 'parts', None):
+					return E(f'(Py.ND.shapeNe {o.lean} [' + ', '.join(p.lean for p in sh.parts) + '])', BOOL, o.raises + sh.raises)
+				if sh.ty == LIST(INT):
+					return E(f'(Py.ND.shapeNe {o.lean} {sh.lean})', BOOL, o.raises + sh.raises)
 		if isinstance(op, (ast.Eq, ast.NotEq)):
 			ea, eb = self.expr(l), self.expr(r)
 			if ea.ty[0] == 'opt' and eb.ty == ea.ty[1] and ea.ty[1] in (INT, NUM, STR, BOOL):
@@ -563,6 +603,8 @@ class Fn:
 		if a.ty != b.ty:
 			if a.ty == NONE and b.ty[0] != 'opt': ty = OPT(b.ty)
 			elif b.ty == NONE and a.ty[0] != 'opt': ty = OPT(a.ty)
+			elif {a.ty, b.ty} == {TUP(INT, INT), LIST(INT)}: ty = ('index',)
+			elif a.ty[0] == 'tuple' and b.ty[0] == 'tuple' and all(t == INT for t in a.ty[1] + b.ty[1]): ty = LIST(INT)    # shapes
 			elif a.ty[0] == 'opt': ty = a.ty
 			elif b.ty[0] == 'opt': ty = b.ty
 			else: raise Untranslatable(f'conditional expression of types {a.ty} / {b.ty}')
@@ -585,6 +627,21 @@ class Fn:
 
 	def e_Subscript(self, n):
 		o = self.value(n.value)
+		if o.ty == ('sigs',) and not isinstance(n.slice, ast.Slice):
+			i = self.value(n.slice)
+			if i.ty == INT:
+				return E(f'((Py.getItem? (Py.Sigs.arrs {o.lean}) {i.lean}).getD default)', ('arr',),
+				         o.raises + i.raises + [(f'(Py.getItem? (Py.Sigs.arrs {o.lean}) {i.lean}).isNone', 'IndexError')])
+			ix = self.coerce(i, ('index',), 'index of a signature collection')
+			return E(f'((Py.Sigs.get? {o.lean} {ix.lean}).getD default)', ('sigs',),
+			         o.raises + ix.raises + [(f'(Py.Sigs.get? {o.lean} {ix.lean}).isNone', 'IndexError')])
+		if o.ty[0] == 'list' and not isinstance(n.slice, ast.Slice):
+			i0 = self.expr(n.slice)
+			if i0.ty == TUP(INT, INT):       # xs[slice_object]
+				return E(f'(Py.slice {o.lean} (some ({i0.lean}).1) (some ({i0.lean}).2))', o.ty, o.raises + i0.raises)
+		if o.ty == ('nd',):
+			get, _ = self.nd_view(n, o)
+			return get
 		if o.ty[0] == 'dict' and not isinstance(n.slice, ast.Slice):
 			k = self.coerce(self.value(n.slice), o.ty[1], 'dict key')
 			return E(f'((Py.dictGet? {o.lean} {k.lean}).getD {default(o.ty[2])})', o.ty[2],
@@ -604,6 +661,49 @@ class Fn:
 		if i.ty != INT: raise Untranslatable('index that is not an int')
 		return E(f'((Py.getItem? {o.lean} {i.lean}).getD {default(elt)})', elt,
 		         o.raises + i.raises + [(f'(Py.getItem? {o.lean} {i.lean}).isNone', 'IndexError')])
+
+	def view_put(self, node):
+		"""(name of the local base array, function src -> expression of the base with the view replaced) for a view expression, or a
+		conditional expression choosing between two views of the same base"""
+		if isinstance(node, ast.IfExp):
+			c = self.truth(node.test)
+			if c.raises: raise Untranslatable('conditional view whose test can raise')
+			b1, p1 = self.view_put(node.body)
+			b2, p2 = self.view_put(node.orelse)
+			if b1 != b2: raise Untranslatable('conditional view of two different arrays')
+			return b1, (lambda src: f'(if {c.lean} then {p1(src)} else {p2(src)})')
+		if isinstance(node, ast.Subscript) and isinstance(node.value, ast.Name) and node.value.id in self.vars:
+			_, put = self.nd_view(node)
+			return node.value.id, put
+		raise Untranslatable(f'out= argument {ast.unparse(node)} is not a view of a local array')
+
+	def nd_view(self, n, o=None):
+		"""a basic-slicing view of a distance array: (expression for its contents as a 1-d array, function src -> expression of the base array
+		with the view's cells replaced by src).  Forms:  a[lo:hi]   a[i, lo:hi]   a[i, slice_object]"""
+		if o is None: o = self.value(n.value)
+		if o.ty != ('nd',): raise Untranslatable(f'view of {o.ty}')
+		sl = n.slice
+		def bounds(x):
+			if isinstance(x, ast.Slice):
+				if x.step is not None or x.lower is None or x.upper is None: raise Untranslatable('array slice without both bounds / with a step')
+				lo, hi = self.value(x.lower), self.value(x.upper)
+				if lo.ty != INT or hi.ty != INT: raise Untranslatable('array slice bounds')
+				return lo.lean, hi.lean, lo.raises + hi.raises
+			e = self.value(x)
+			if e.ty != TUP(INT, INT): raise Untranslatable(f'array index of type {e.ty}')
+			return f'({e.lean}).1', f'({e.lean}).2', e.raises
+		if isinstance(sl, ast.Slice):
+			lo, hi, rs = bounds(sl)
+			return (E(f'(Py.ND.view1 {o.lean} {lo} {hi})', ('nd',), o.raises + rs),
+			        lambda src: f'(Py.ND.put1 {o.lean} {lo} {hi} {src})')
+		if isinstance(sl, ast.Tuple) and len(sl.elts) == 2:
+			i = self.value(sl.elts[0])
+			if i.ty == INT:
+				lo, hi, rs = bounds(sl.elts[1])
+				return (E(f'(Py.ND.rowView {o.lean} {i.lean} {lo} {hi})', ('nd',),
+				          o.raises + i.raises + rs + [(f'(Py.getItem? ({o.lean}).rows {i.lean}).isNone', 'IndexError')]),
+				        lambda src: f'(Py.ND.putRow {o.lean} {i.lean} {lo} {hi} {src})')
+		raise Untranslatable(f'array view {ast.unparse(n)}')
 
 	def e_DictComp(self, n):
 		if len(n.generators) != 1 or n.generators[0].ifs or n.generators[0].is_async: raise Untranslatable('dict comprehension with conditions / several generators')
@@ -658,6 +758,7 @@ class Fn:
 				if isinstance(args[0], ast.Name) and args[0].id == 'self' and self.d.get('self_len'):
 					return E(f's.{self.d["self_len"]}', INT)
 				a = self.value(args[0])
+				if a.ty == ('sigs',): return E(f'(({a.lean}).items.length : Int)', INT, a.raises)
 				if a.ty[0] not in ('list', 'set', 'dict', 'bytes', 'str'): raise Untranslatable(f'len of {a.ty}')
 				return E(f'(({a.lean}).length : Int)', INT, a.raises)
 			if name == 'list' and len(args) == 1:
@@ -706,6 +807,14 @@ class Fn:
 				if c.raises: raise Untranslatable(f'{name}() of a condition that can raise')
 				body = re.sub(rf'\bs\.{x}\b', f'x_{x}', c.lean)
 				return E(f'(({xs.lean}).{name} (fun x_{x} => {body}))', BOOL, xs.raises)
+			if name == 'isinstance' and len(args) == 2 and isinstance(args[1], ast.Name) and args[1].id in ('SignatureArray', 'AbstractSignatureArray'):
+				a = self.value(args[0])
+				if a.ty != ('sigs',): raise Untranslatable(f'isinstance of {a.ty}')
+				return E(f'(decide (({a.lean}).kind = 2))' if args[1].id == 'SignatureArray' else f'(decide (1 ≤ ({a.lean}).kind))', BOOL, a.raises)
+			if name == 'SignatureList' and len(args) == 1 and not kw and self.d.get('arrays'):
+				a = self.value(args[0])
+				if a.ty != ('sigs',): raise Untranslatable(f'SignatureList of {a.ty}')
+				return E(f'({{ {a.lean} with kind := 1 }} : Py.Sigs)', ('sigs',), a.raises)
 			if name == 'float' and len(args) == 1 and isinstance(args[0], ast.Constant) and args[0].value == 'inf':
 				return E('none', NUMINF)
 			if name == 'zip_strict' and len(args) == 2 and not kw:
@@ -786,6 +895,17 @@ class Fn:
 				a = self.value(args[0])
 				if a.ty != STR: raise Untranslatable('os.fspath of ' + str(a.ty))
 				return a
+			if mod == 'np' and m == 'asarray' and len(args) == 1 and not kw:
+				a = self.value(args[0])
+				if a.ty == LIST(INT): return a
+				raise Untranslatable(f'np.asarray of {a.ty}')
+			if mod == 'np' and m == 'empty' and len(args) == 2 and not kw and ast.unparse(args[1]) == 'SCORE_DTYPE':
+				sh = self.value(args[0])
+				if sh.ty == INT: return E(f'(Py.ND.empty [{sh.lean}])', ('nd',), sh.raises)
+				if sh.ty == LIST(INT): return E(f'(Py.ND.empty {sh.lean})', ('nd',), sh.raises)
+				if sh.ty[0] == 'tuple' and all(t == INT for t in sh.ty[1]) and getattr(sh, 'parts', None):
+					return E('(Py.ND.empty [' + ', '.join(p.lean for p in sh.parts) + '])', ('nd',), sh.raises)
+				raise Untranslatable(f'np.empty of shape {sh.ty}')
 			if mod == 'np' and m == 'argsort' and len(args) == 1:
 				# only the stable sort has a defined result on ties
 				if set(kw) != {'kind'} or not (isinstance(kw['kind'], ast.Constant) and kw['kind'].value in ('stable', 'mergesort')):
@@ -818,6 +938,11 @@ class Fn:
 				# an unsigned NumPy type is represented by its item size in bytes
 				return E(f'({int(args[0].value[1])} : Int)', INT)
 			raise Untranslatable(f'call of {mod}.{m}')
+		if (isinstance(f, ast.Attribute) and f.attr == 'astype' and isinstance(f.value, ast.Attribute) and f.value.attr == 'bounds'
+				and [ast.unparse(x) for x in args] + [f'{k}={ast.unparse(v)}' for k, v in kw.items()] == ['BOUNDS_DTYPE', 'copy=False']):
+			o = self.value(f.value.value)
+			if o.ty != ('sigs',): raise Untranslatable(f'.bounds of {o.ty}')
+			return E(f'(Py.Sigs.bounds {o.lean})', LIST(INT), o.raises)
 		if isinstance(f, ast.Attribute):
 			o = self.value(f.value, 'AttributeError')
 			m = f.attr
@@ -878,8 +1003,11 @@ class Fn:
 			if want is None: raise Untranslatable(f'element type of the empty container assigned to {name} is unknown')
 			e = E('[]', want, e.raises)
 		self.declare(name, e.ty)
+		was_opt = e.ty[0] != 'opt' and e.ty != NONE
 		e = self.coerce(e, self.vars[name], f'assignment to {name}')
 		self.narrow = {k for k in self.narrow if f"id='{name}'" not in k}
+		if was_opt and self.vars[name][0] == 'opt':
+			self.narrow.add(ast.dump(ast.Name(id=name, ctx=ast.Load())))      # just assigned a value that is not None
 		return self.guards(e.raises, ind) + f'{ind}let s : St := {{ s with {name} := {e.lean} }}\n'
 
 	def block(self, stmts, ind) -> str:
@@ -906,9 +1034,36 @@ class Fn:
 		v = st.value
 		if isinstance(v, ast.Constant) and isinstance(v.value, str):
 			return ''   # doc-string
+		if (isinstance(v, ast.Call) and isinstance(v.func, ast.Name) and v.func.id in self.known and self.known[v.func.id].get('fills_out')
+				and any(k.arg == 'out' for k in v.keywords)):
+			# NumPy basic slicing yields a view: what the callee writes into `out=base[…]` is written into `base`
+			oarg = next(k.value for k in v.keywords if k.arg == 'out')
+			node = self.viewdef.get(oarg.id) if isinstance(oarg, ast.Name) and oarg.id in self.viewdef else oarg
+			base, puts = self.view_put(node)
+			call, ty, raises = self.call_known(v)
+			if ty != ('nd',): raise Untranslatable('out= of a function that does not return the array')
+			self.nv += 1
+			vn = f'w{self.nv}'
+			return (self.guards(raises, ind) + f'{ind}let {vn} ← Py.call {call}\n'
+			        + self.assign(base, E(puts(vn), ('nd',)), ind))
 		if isinstance(v, ast.Call) and isinstance(v.func, ast.Name) and v.func.id in self.known:
 			call, ty, raises = self.call_known(v)      # a translated function called for its checks only
 			return self.guards(raises, ind) + f'{ind}let _ ← Py.call {call}\n'
+		if isinstance(v, ast.Call) and ast.unparse(v.func) == 'np.fill_diagonal' and len(v.args) == 2 and not v.keywords:
+			o = v.args[0]
+			if not (isinstance(o, ast.Name) and o.id in self.vars and self.vars[o.id] in (('nd',), OPT(('nd',)))) or ast.unparse(v.args[1]) != '0':
+				raise Untranslatable('np.fill_diagonal with unexpected arguments')
+			cur = self.value(o)
+			return self.assign(o.id, E(f'(Py.ND.fillDiagonal {cur.lean} 0)', ('nd',), cur.raises), ind)
+		if isinstance(v, ast.Call) and ast.unparse(v.func) == '_cmetric._jaccarddist_parallel' and len(v.args) == 4 and not v.keywords:
+			q, vals, bnds = (self.value(a) for a in v.args[:3])
+			o = v.args[3]
+			if not (isinstance(o, ast.Name) and o.id in self.vars and self.vars[o.id] in (('nd',), OPT(('nd',)))) or (q.ty, vals.ty, bnds.ty) != (('arr',), ('arr',), LIST(INT)):
+				raise Untranslatable('_jaccarddist_parallel with unexpected arguments')
+			cur = self.value(o)
+			new = E(f'(Py.parallelDists {q.lean} {vals.lean} {bnds.lean} {cur.lean})', ('nd',),
+			        q.raises + vals.raises + bnds.raises + cur.raises + [(f'(!(({q.lean}).dtype.kernelOk && ({vals.lean}).dtype.kernelOk))', 'TypeError')])
+			return self.assign(o.id, new, ind)
 		if isinstance(v, ast.Call) and isinstance(v.func, ast.Attribute) and not (v.func.attr == 'append'):
 			try:
 				e = self.expr(v)
@@ -980,6 +1135,21 @@ class Fn:
 				k = self.coerce(self.value(tgt.slice), ty[1], 'dict key')
 				e = self.coerce(self.expr(v), ty[2], 'dict value')
 				return self.guards(k.raises + e.raises, ind) + f'{ind}let s : St := {{ s with {name} := Py.dictSet s.{name} {k.lean} {e.lean} }}\n'
+			if ty in (('nd',), OPT(('nd',))) and isinstance(tgt.slice, ast.Tuple) and len(tgt.slice.elts) == 2:
+				cur = self.value(tgt.value)
+				sl, col = self.value(tgt.slice.elts[0]), self.value(tgt.slice.elts[1])
+				src = self.value(v)
+				if sl.ty != TUP(INT, INT) or col.ty != INT or src.ty != ('nd',): raise Untranslatable(f'array assignment {ast.unparse(tgt)} = …')
+				new = E(f'(Py.ND.putCol {cur.lean} ({sl.lean}).1 ({sl.lean}).2 {col.lean} {src.lean})', ('nd',), cur.raises + sl.raises + col.raises + src.raises)
+				return self.assign(name, new, ind)
+			if ty in (('nd',), OPT(('nd',))):
+				cur = self.value(tgt.value)
+				i = self.value(tgt.slice)
+				e = self.expr(v)
+				if i.ty != INT or e.ty != ('score',): raise Untranslatable(f'array item assignment [{i.ty}] = {e.ty}')
+				new = E(f'(Py.ND.set1 {cur.lean} {i.lean} {e.lean})', ('nd',),
+				        cur.raises + i.raises + e.raises + [(f'(Py.getItem? ({cur.lean}).vals1 {i.lean}).isNone', 'IndexError')])
+				return self.assign(name, new, ind)
 			if ty[0] == 'list':
 				i = self.value(tgt.slice)
 				if i.ty != INT: raise Untranslatable('list index that is not an int')
@@ -1017,8 +1187,12 @@ class Fn:
 			self.narrow = {k for k in self.narrow if f"id='{name}'" not in k}
 			return self.guards(raises, ind) + f'{ind}let v ← Py.call {call}\n{ind}let s : St := {{ s with {name} := {e.lean} }}\n'
 		self.list_hint = self.vars.get(name) if self.vars.get(name, ('',))[0] == 'list' else None
+		if isinstance(v, (ast.Subscript, ast.IfExp)):
+			self.viewdef.pop(name, None)
 		try:
 			e = self.expr(v)
+			if e.ty == ('nd',) and isinstance(v, (ast.Subscript, ast.IfExp)):
+				self.viewdef[name] = v
 		finally:
 			self.list_hint = None
 		return self.assign(name, e, ind)
@@ -1121,8 +1295,14 @@ class Fn:
 		it = st.iter
 		if isinstance(it, ast.Call) and isinstance(it.func, ast.Name) and it.func.id == 'enumerate' and len(it.args) == 1:
 			xs = self.value(it.args[0])
+			if xs.ty == ('sigs',): xs = E(f'(Py.Sigs.arrs {xs.lean})', LIST(('arr',)), xs.raises)
 			if xs.ty[0] != 'list': raise Untranslatable('enumerate of ' + str(xs.ty))
 			xs = E(f'(Py.enumerate {xs.lean})', LIST(TUP(INT, xs.ty[1])), xs.raises)
+		elif isinstance(it, ast.Call) and isinstance(it.func, ast.Name) and it.func.id == 'range' and 1 <= len(it.args) <= 2 and not it.keywords:
+			a = [self.value(x) for x in it.args]
+			if any(x.ty != INT for x in a): raise Untranslatable('range of non-ints')
+			lo, hi = ('(0 : Int)', a[0].lean) if len(a) == 1 else (a[0].lean, a[1].lean)
+			xs = E(f'((List.range (({hi}) - ({lo})).toNat).map (fun (j : Nat) => ({lo}) + (j : Int)))', LIST(INT), guard_all(a))
 		else:
 			xs = self.value(it)
 		if xs.ty == BYTES: elt = BYTE
@@ -1201,7 +1381,8 @@ class Fn:
 			# names bound by comprehensions inside the node are assigned before they are read
 			extra = set(extra) | {t.id for c in ast.walk(node) if isinstance(c, ast.comprehension) for t in ast.walk(c.target) if isinstance(t, ast.Name)}
 			for x in ast.walk(node):
-				if isinstance(x, ast.Name) and isinstance(x.ctx, ast.Load) and x.id in self.vars and x.id not in bound and x.id not in extra:
+				if (isinstance(x, ast.Name) and isinstance(x.ctx, ast.Load) and x.id in self.vars and x.id not in bound and x.id not in extra
+						and x.id not in (self.d.get('assume_bound') or ())):
 					problems.append(f'{x.id} (line {x.lineno}) may be read before it is assigned')
 
 		def targets(t):
